@@ -145,6 +145,12 @@ func extractSinglePart(re *syntax.Regexp) *charClassPart {
 		return nil
 	}
 
+	// The matchers extend every part greedily: a lazy repetition
+	// ([0-9]*?) is a different pattern.
+	if re.Flags&syntax.NonGreedy != 0 {
+		return nil
+	}
+
 	// Build membership table
 	var membership [256]bool
 	runes := charClass.Rune
